@@ -487,6 +487,7 @@ func (db *DB) doProcessIterations(iterations []*iteration) {
 		remainingIterations[i] = it
 	}
 
+	iterationErrors := make(map[int]error)
 	combinedOnValue := func(dims bytemap.ByteMap, vals []encoding.Sequence) (bool, error) {
 		more := false
 		for i, it := range remainingIterations {
@@ -499,8 +500,12 @@ func (db *DB) doProcessIterations(iterations []*iteration) {
 			}
 			itMore, err := it.onValue(dims, itVals)
 			if err != nil {
+				// this iteration failed: report the error to it alone and keep
+				// serving the others
 				it.t.log.Errorf("Error while iterating: %v", err)
-				return false, err
+				iterationErrors[i] = err
+				delete(remainingIterations, i)
+				continue
 			}
 			if !itMore {
 				// This iteration doesn't want any more data, stop feeding it
@@ -522,9 +527,13 @@ func (db *DB) doProcessIterations(iterations []*iteration) {
 	if err != nil {
 		iterations[0].t.log.Errorf("Got error while iterating: %v", err)
 	}
-	for _, it := range iterations {
+	for i, it := range iterations {
 		it.offsetsCh <- offsetsBySource
-		it.errCh <- err
+		if iterationErr, failed := iterationErrors[i]; failed {
+			it.errCh <- iterationErr
+		} else {
+			it.errCh <- err
+		}
 	}
 }
 
